@@ -23,7 +23,7 @@ ASSUMPTIONS = ["integer-valued data below 2^40: every f64 sum is exact whatever 
 FLOORS = {"quick": {"evaluations": 3000, "distinct_nontrivial": 1500, "counts": {"L_orders": 2500, "C_runs": 100}},
           "thorough": {"evaluations": 200000, "distinct_nontrivial": 100000, "counts": {"L_orders": 200000, "C_runs": 3000}}}
 NSHARD = 32
-SIZES = {"quick": (260, 8, 6), "thorough": (12000, 150, 60)}   # per shard: L shapes, C view cases, C create cases
+SIZES = {"quick": (260, 8, 6), "thorough": (3000, 150, 60)}   # per shard: L shapes, C view cases, C create cases
 
 
 def plan(tier, seed):
